@@ -228,12 +228,12 @@ fn run_case(r: &mut Rng, c: &Case, out: &mut Sink) {
             // decoys that start their probe sequence at the same bucket with the same tag, placed first
             for _ in 0..r.range(1, 2) {
                 let mut found = None;
-                for _ in 0..400_000 {
+                for _ in 0..60_000 {
                     let d = random_pid(r);
-                    if stored_set.contains(&d) || buckets.values().any(|(l, _)| *l == d) {
-                        continue;
-                    }
                     if table.same_slot(&pid, &mk_pid(&d)) {
+                        if stored_set.contains(&d) || buckets.values().any(|(l, _)| *l == d) {
+                            continue;
+                        }
                         found = Some(d);
                         break;
                     }
